@@ -1084,17 +1084,38 @@ func (fr *Frame) zeroArray(st *State, et types.Type, arr string) {
 
 // noteAlloc: ghost allocation budget (C04): bytes allocated by makes fed by data.
 func (fr *Frame) noteAlloc(st *State, et types.Type, n string, pos token.Pos) {
+	// allocation budget (property C04): a unit whose contract says `allocbound E` must show, at every make fed by
+	// data, that the bytes allocated are at most E evaluated in the entry state — also on paths that panic later
 	vc := fr.vc
-	if _, ok := vc.heapSorts["G:ghost.allocated"]; !ok && !fr.top().trackAlloc {
+	top := fr.top()
+	if top.fc == nil || top.fc.Opts["allocbound"] == "" || top.lockOnly {
+		return
+	}
+	e, err := ParseExpr(top.fc.Opts["allocbound"])
+	if err != nil {
+		vc.prog.specErrors = append(vc.prog.specErrors, fmt.Sprintf("%s:%d: allocbound: %v", top.fc.File, top.fc.Line, err))
+		return
+	}
+	vars := map[string]Val{}
+	for k, v := range top.params {
+		vars[k] = v
+	}
+	var pkg *types.Package
+	if top.fn.Pkg != nil {
+		pkg = top.fn.Pkg.Pkg
+	}
+	env := &Env{vc: vc, st: top.old, old: top.old, vars: vars, pkg: pkg, pkgName: top.fc.Pkg}
+	bv, err := env.Eval(e, mathT)
+	if err != nil {
+		vc.prog.specErrors = append(vc.prog.specErrors, fmt.Sprintf("%s:%d: allocbound: %v", top.fc.File, top.fc.Line, err))
+		return
+	}
+	if vc.mode != ModeInt {
 		return
 	}
 	sz := int64((&types.StdSizes{WordSize: 8, MaxAlign: 8}).Sizeof(et))
-	cur := vc.hget(st, "G:ghost.allocated", "Int")
-	nn := n
-	if vc.mode == ModeBV {
-		nn = "(bv2nat " + n + ")"
-	}
-	vc.hset(st, "G:ghost.allocated", "Int", fmt.Sprintf("(+ %s (* %d %s))", cur, sz, nn))
+	vc.oblige("alloc", top.oblFn, fr.oblName("alloc-bounded"), fr.curCond, fmt.Sprintf("(<= (* %d %s) %s)", sz, n, bv.C[0]), fr.pos(pos),
+		"allocation of "+fmt.Sprint(sz)+"*len bytes is within the budget "+top.fc.Opts["allocbound"]+" (entry state)")
 }
 
 func (fr *Frame) binop(st *State, x *ssa.BinOp) {
